@@ -1,0 +1,11 @@
+//go:build verif
+
+// Verification hooks (build tag "verif"). Add-only, used by the external verification harness
+// (C07). Nothing here is compiled into a normal build.
+
+package protocol
+
+import "github.com/enfein/mieru/v3/pkg/protocol/serveruser"
+
+// VerifServerRegistry returns the server user registry of a server mux (for its counters).
+func VerifServerRegistry(m *Mux) *serveruser.Registry { return &m.serverUsers }
